@@ -55,6 +55,9 @@ pub enum Act {
     GetMutOrInsertWithWrite(String, Val),
     /// continue on `clone()`
     Clone,
+    /// continue on `d.clone_from(&object)` where `d` is an independently built object that
+    /// already holds n entries (its own allocation, its own hasher state)
+    CloneFrom(usize),
     /// `extend` with (Key, Value) pairs
     ExtendPairs(Vec<(String, Val)>),
     /// `extend` with entries
@@ -104,6 +107,7 @@ impl fmt::Display for Act {
             Act::GetOrInsertWith(k, v) => write!(f, "get_or_insert_with({k},{v})"),
             Act::GetMutOrInsertWithWrite(k, v) => write!(f, "get_mut_or_insert_with_write({k},{v})"),
             Act::Clone => write!(f, "clone()"),
+            Act::CloneFrom(n) => write!(f, "clone_from({n})"),
             Act::ExtendPairs(p) => write!(f, "extend_pairs({})", pairs_str(p)),
             Act::ExtendEntries(p) => write!(f, "extend_entries({})", pairs_str(p)),
             Act::FromIterEntries => write!(f, "from_iter_entries()"),
@@ -154,6 +158,7 @@ impl Act {
             "get_or_insert_with" => Act::GetOrInsertWith(a[0].into(), a[1].parse().ok()?),
             "get_mut_or_insert_with_write" => Act::GetMutOrInsertWithWrite(a[0].into(), a[1].parse().ok()?),
             "clone" => Act::Clone,
+            "clone_from" => Act::CloneFrom(a[0].parse().ok()?),
             "extend_pairs" => Act::ExtendPairs(pairs(args)?),
             "extend_entries" => Act::ExtendEntries(pairs(args)?),
             "from_iter_entries" => Act::FromIterEntries,
@@ -284,14 +289,14 @@ pub static SAW: std::sync::atomic::AtomicU8 = std::sync::atomic::AtomicU8::new(0
 /// audit is a deterministic function of exactly that, so it is run once per unique state.
 pub static AUDITED: std::sync::OnceLock<Vec<std::sync::Mutex<std::collections::HashSet<u64>>>> = std::sync::OnceLock::new();
 
-pub const KINDS: [&str; 23] = [
+pub const KINDS: [&str; 24] = [
     "push", "push_entry", "push_front", "push_entry_front", "insert", "insert_front", "remove", "remove_unique", "remove_at", "sort", "get_mut_write",
     "iter_mut_write", "get_unique_mut_write", "get_or_insert_with", "get_mut_or_insert_with_write", "clone", "extend_pairs", "extend_entries",
-    "from_iter_entries", "from_iter_pairs", "from_vec", "into_iter_from", "ref_mut_into_iter_write",
+    "from_iter_entries", "from_iter_pairs", "from_vec", "into_iter_from", "ref_mut_into_iter_write", "clone_from",
 ];
 
 /// Transitions executed per operation kind (evidence: the outcome histogram of the search).
-pub static KIND_COUNT: [std::sync::atomic::AtomicU64; 23] = [const { std::sync::atomic::AtomicU64::new(0) }; 23];
+pub static KIND_COUNT: [std::sync::atomic::AtomicU64; 24] = [const { std::sync::atomic::AtomicU64::new(0) }; 24];
 
 impl Act {
     pub fn kind_index(&self) -> usize {
@@ -601,6 +606,17 @@ pub fn apply(real: &mut Object, model: &mut RObj<Val>, a: &Act, saw: &mut u8) ->
             }
             *real = c;
         }
+        Act::CloneFrom(n) => {
+            let mut d = Object::new();
+            for i in 0..*n {
+                d.push(key(&format!("clone-from-destination-key-{i}")), val(0));
+            }
+            d.clone_from(real);
+            if d != *real {
+                return Err("after d.clone_from(&o): d != o".into());
+            }
+            *real = d;
+        }
         Act::ExtendPairs(p) => {
             real.extend(p.iter().map(|(k, v)| (key(k), val(*v))));
             for (k, v) in p {
@@ -904,6 +920,8 @@ impl Model for ObjModel {
         }
         out.push(Act::Sort);
         out.push(Act::Clone);
+        out.push(Act::CloneFrom(0));
+        out.push(Act::CloneFrom(5));
         out.push(Act::FromIterEntries);
         out.push(Act::FromIterPairs);
         out.push(Act::FromVec);
@@ -926,7 +944,10 @@ impl Model for ObjModel {
                 n.saw = 0;
                 let fp = std_hash(&(canon_key(&n.real, true), &n.model.entries));
                 let shard = &AUDITED.get().unwrap()[(fp % 64) as usize];
-                let done = shard.lock().unwrap().contains(&fp);
+                // with per-index seeds (hash mode 3) the answers of the queries also depend on the
+                // hasher state, which the dump does not show: audit every state
+                let per_index_seeds = json_syntax::object::verif::HASH_MODE.load(std::sync::atomic::Ordering::Relaxed) == 3;
+                let done = !per_index_seeds && shard.lock().unwrap().contains(&fp);
                 if !done {
                     let keys = self.all_keys(&n);
                     n.err = match explore::guard(|| audit(&n.real, &n.model, &keys, true)) {
